@@ -11,5 +11,6 @@ open Comrak.C11
 #print axioms spx_consume_in_range
 #print axioms blockEnd_after_start
 #print axioms blockEnd_counterexample
-#print axioms thematicEnd_exact_iff
-#print axioms thematicEnd_counterexample
+#print axioms thematicEnd_exact
+#print axioms thematicEnd_old_exact_iff
+#print axioms thematicEnd_old_counterexample
